@@ -55,8 +55,24 @@ def gen_text(rng):
     return rng.choice(["k", "city", "temp_f", "x", "my tag", "A1"])
 
 
+class Reading(float):
+    """A float subclass that prints like a numpy scalar does (valid field value: it IS a float)."""
+
+    def __repr__(self):
+        return f"Reading({float(self)!r})"
+
+
+class Count(int):
+    def __repr__(self):
+        return f"Count({int(self)})"
+
+    __str__ = __repr__
+
+
 def gen_field_value(rng, exotic):
     r = rng.random()
+    if r > 0.97:
+        return rng.choice([Reading(21.5), Reading(-0.0), Reading(1e22), Count(7), Count(-3), Reading(float("inf"))])
     if r < 0.1:
         return None
     if r < 0.3:
@@ -144,9 +160,19 @@ def diff_features(orig, dec):
         f["all_diff_fields_are_big_ints"] = (
             orig.fields.keys() == dec.fields.keys()
             and bool(differing)
-            and all(isinstance(orig.fields[k], int) and not isinstance(orig.fields[k], bool) and abs(orig.fields[k]) > BIG for k in differing)
+            and all(isinstance(orig.fields[k], int) and not isinstance(orig.fields[k], bool) and abs(orig.fields[k]) > BIG
+                    and _is_float_image(orig.fields[k], dec.fields[k]) for k in differing)
         )
     return f
+
+
+def _is_float_image(original_int, decoded):
+    """The listed mechanism: the int was written as str(float(v)), so it comes back as exactly float(v).  An int that
+    float() cannot express at all (OverflowError) is the other listed finding and never decodes to anything."""
+    try:
+        return isinstance(decoded, (int, float)) and not isinstance(decoded, bool) and decoded == float(original_int)
+    except OverflowError:
+        return False
 
 
 def violate_per_slot(res, kind, detail, replay, features):
